@@ -236,8 +236,8 @@ func expectedSource(c Case) string {
 }
 
 func preHole(name string) *regexp.Regexp {
-	// (attribute values are quoted and may contain '>')
-	return regexp.MustCompile(`(<(?:pre|textarea)(?:\s(?:[^>"']|"[^"]*"|'[^']*')*)?>)\{\{ ` + name + ` \}\}`)
+	// (attribute values are quoted and may contain '>'; tag names in either letter case)
+	return regexp.MustCompile(`(?i)(<(?:pre|textarea)(?:\s(?:[^>"']|"[^"]*"|'[^']*')*)?>)\{\{ ` + name + ` \}\}`)
 }
 
 func parse(s string, doc bool) ([]*hx.N, error) {
